@@ -72,8 +72,8 @@ def choose_action(rng, w, focus, budget):
     V = w.osyris.Vector
     ops = {"dict": ["set", "set", "del", "pop", "get", "clear", "update", "copy", "eq", "eq", "dsset", "dsset", "dssetbad", "dsupdatebad", "dsdel", "dspop", "dsget",
                     "dsmeta", "dsclear", "dsupdate", "dscopy", "dsdeepcopy", "deepcopy"],
-           "rows": ["set", "set", "set", "del", "pop", "update", "index", "index", "index", "sortkey", "sortkey", "sortidx", "clear", "slice", "copy", "get"],
-           "alias": ["set", "set", "copy", "deepcopy", "slice", "slice", "ocopy", "to", "to", "iop", "iop", "iop", "iop", "dsset", "dscopy", "index", "sortidx", "get"]}[focus]
+           "rows": ["vset", "set", "set", "set", "del", "pop", "update", "index", "index", "index", "sortkey", "sortkey", "sortidx", "clear", "slice", "copy", "get"],
+           "alias": ["set", "set", "copy", "deepcopy", "slice", "slice", "ocopy", "to", "to", "vset", "iop", "iop", "iop", "iop", "dsset", "dscopy", "index", "sortidx", "get"]}[focus]
     for _ in range(50):
         op = rng.choice(ops)
         g = rng.randrange(len(G)) + 1
@@ -100,6 +100,16 @@ def choose_action(rng, w, focus, budget):
             if str(O[o - 1].dtype) == "float32":
                 continue
             return {"op": "to", "o": o, "u": rng.randrange(3) + 1}
+        if op == "vset":
+            vs = [i + 1 for i, x in enumerate(O) if isinstance(x, V) and x.shape]
+            if not vs:
+                continue
+            o = rng.choice(vs)
+            v = O[o - 1]
+            srcs = [i + 1 for i, x in enumerate(O) if not isinstance(x, V) and x.shape == v.shape and str(x.unit) == str(v.unit) and x.dtype == v.dtype]
+            if not srcs:
+                continue
+            return {"op": "vset", "o": o, "c": rng.randrange(min(3, v.nvec + 1)) + 1, "src": rng.choice(srcs)}
         if op == "ocopy" and len(O) < MAXOBJ:
             return {"op": "ocopy", "o": rng.randrange(len(O)) + 1, "how": rng.choice(["copy", "deepcopy"])}
         if op == "sortkey" and len(grp) and grp.shape != () and len(O) + len(grp) <= MAXOBJ:
@@ -137,7 +147,7 @@ def choose_action(rng, w, focus, budget):
                     continue
             if f in ("mul", "div"):
                 budget["muldiv"] -= 1
-            return {"op": "iop", "f": f, "o": o, "rhs": rhs}
+            return {"op": "iop", "f": f, "o": o, "rhs": rhs, "q": bool(y is not None and not isinstance(y, V) and rng.random() < 0.3)}
         if op == "eq":
             return {"op": "eq", "g": g, "h": rng.randrange(len(G)) + 1}
         d = rng.randrange(len(D)) + 1
